@@ -54,9 +54,11 @@ MANIFEST = {
             "HEAD rule once, injectively, identical pairs first; Noop implies identical content, same path and same disabled checks; a rule whose "
             "content differs from every base rule is never Noop and always in a state selected by CIStates (tables regenerated from the Go AST); "
             "unmatched base rules are Removed; the merge keeps entries of untouched files unchanged and a glob entry only takes its state from a "
-            "branch entry at its path and position; the converse at full strength: end to end over Find, and for ANY faithful history, a HEAD rule "
+            "branch entry at its path and position; both directions at full strength, end to end over Find and for ANY faithful history: a HEAD rule "
             "that is untouched relative to the fork-point version of the file it descends from (enough identical base copies, same path, same set of "
-            "disabled checks) is Noop in the list `pint ci` lints. No open known finding. "
+            "disabled checks) is Noop in the list `pint ci` lints, and a HEAD rule whose content differs from every rule of that base version is "
+            "Added/Modified/Moved there (never Noop; the merge loop cannot lose the state); the FileStatus runes, the status switch of git.Changes, "
+            "the PathType order and the `git log` arguments are regenerated from the Go AST every run. No open known finding. "
             "Tied to the code every run by four differential layers (real matchEntries; real git.Changes on scratch repositories; real "
             "GlobFinder+Find; the composed model classify against the real Find from raw git output) and by `pint ci` with per-state marker blocks "
             "on generated histories (add/modify/delete/rename file, rule edits incl. single map entries and trailing lines, cosmetic edits, reorders, "
